@@ -2,8 +2,10 @@
 from vlib.framework import PUnit, LUnit, BUnit
 from bounded import b_coords as B
 from contracts import backmap as BM
+from contracts import coord_reader as CR
 
-P_UNITS = [PUnit("backmap-only-flagged-residues", BM.CONTRACTS, BM.REG)]
+P_UNITS = [PUnit("coordinates-consumed-exactly", CR.CONTRACTS, CR.REG),
+           PUnit("backmap-only-flagged-residues", BM.CONTRACTS, BM.REG)]
 
 
 def build(tier, seed):
